@@ -1,0 +1,136 @@
+//go:build verif
+
+package main
+
+import (
+	"bufio"
+	"fmt"
+	"os"
+
+	"github.com/goccmack/gocc/internal/ast"
+	"github.com/goccmack/gocc/internal/frontend/parser"
+	"github.com/goccmack/gocc/internal/frontend/scanner"
+	"github.com/goccmack/gocc/internal/frontend/token"
+	lexItems "github.com/goccmack/gocc/internal/lexer/items"
+	"github.com/goccmack/gocc/internal/parser/symbols"
+	outToken "github.com/goccmack/gocc/internal/token"
+)
+
+func init() { commands["lexdump"] = cmdLexDump }
+
+// lexdump <file.bnf>: prints the lexical part (patterns), and the lexer DFA gocc builds for it
+// (transition rows, accept codes), in the whitespace-separated format of the bisimulation checker.
+func cmdLexDump(in *bufio.Reader, out *bufio.Writer, args []string) {
+	src, err := os.ReadFile(args[0])
+	if err != nil {
+		panic(err)
+	}
+	sc := &scanner.Scanner{}
+	sc.Init(src, token.FRONTENDTokens)
+	p := parser.NewParser(parser.ActionTable, parser.GotoTable, parser.ProductionsTable, token.FRONTENDTokens)
+	gr, err := p.Parse(sc)
+	if err != nil {
+		fmt.Fprintf(os.Stderr, "parse error: %v\n", err)
+		os.Exit(1)
+	}
+	g := gr.(*ast.Grammar)
+	gSymbols := symbols.NewSymbols(g)
+	gSymbols.Add(g.LexPart.TokenIds()...)
+	g.LexPart.UpdateStringLitTokens(gSymbols.ListStringLitSymbols())
+	lexSets := lexItems.GetItemSets(g.LexPart)
+	tokenMap := outToken.NewTokenMap(gSymbols.ListTerminals())
+
+	regIdx := map[string]int{}
+	var regs []*ast.LexRegDef
+	for _, pr := range g.LexPart.ProdList.Productions {
+		if rd, ok := pr.(*ast.LexRegDef); ok {
+			regIdx[rd.Id()] = len(regs)
+			regs = append(regs, rd)
+		}
+	}
+	var pat func(p *ast.LexPattern)
+	pat = func(p *ast.LexPattern) {
+		fmt.Fprintf(out, "P %d ", len(p.Alternatives))
+		for _, a := range p.Alternatives {
+			fmt.Fprintf(out, "A %d ", len(a.Terms))
+			for _, t := range a.Terms {
+				switch n := t.(type) {
+				case *ast.LexCharLit:
+					fmt.Fprintf(out, "c %d ", n.Val)
+				case *ast.LexCharRange:
+					fmt.Fprintf(out, "r %d %d ", n.From.Val, n.To.Val)
+				case *ast.LexDot:
+					fmt.Fprintf(out, "d ")
+				case *ast.LexRegDefId:
+					i, ok := regIdx[n.Id]
+					if !ok {
+						i = 1 << 20 // undefined (or imported): the model rejects it
+					}
+					fmt.Fprintf(out, "f %d ", i)
+				case *ast.LexOptPattern:
+					fmt.Fprintf(out, "o ")
+					pat(n.LexPattern)
+				case *ast.LexRepPattern:
+					fmt.Fprintf(out, "s ")
+					pat(n.LexPattern)
+				case *ast.LexGroupPattern:
+					fmt.Fprintf(out, "g ")
+					pat(n.LexPattern)
+				default:
+					panic(fmt.Sprintf("unexpected term %T", t))
+				}
+			}
+		}
+	}
+	fmt.Fprintf(out, "%d\n", len(regs))
+	for _, rd := range regs {
+		pat(rd.LexPattern())
+		fmt.Fprintln(out)
+	}
+	n := 0
+	for _, pr := range g.LexPart.ProdList.Productions {
+		switch pr.(type) {
+		case *ast.LexTokDef, *ast.LexIgnoredTokDef:
+			n++
+		}
+	}
+	fmt.Fprintf(out, "%d\n", n)
+	for _, pr := range g.LexPart.ProdList.Productions {
+		switch d := pr.(type) {
+		case *ast.LexTokDef:
+			sl := 0
+			if g.LexPart.StringLitTokDef(d.Id()) != nil {
+				sl = 1
+			}
+			fmt.Fprintf(out, "T %d %d ", tokenMap.IdMap[d.Id()], sl)
+			pat(d.LexPattern())
+			fmt.Fprintln(out)
+		case *ast.LexIgnoredTokDef:
+			fmt.Fprintf(out, "I ")
+			pat(d.LexPattern())
+			fmt.Fprintln(out)
+		}
+	}
+	fmt.Fprintf(out, "%d\n", lexSets.Size())
+	for _, set := range lexSets.List() {
+		acc := 0
+		if act := set.Action(); act != nil {
+			switch a := act.(type) {
+			case lexItems.Accept:
+				acc = tokenMap.IdMap[string(a)]
+			case lexItems.Ignore:
+				acc = -1
+			}
+		}
+		dflt := -1
+		if set.SymbolClasses.MatchAny {
+			dflt = set.DotTransition
+		}
+		rs := set.SymbolClasses.List()
+		fmt.Fprintf(out, "%d %d %d", acc, dflt, len(rs))
+		for i, r := range rs {
+			fmt.Fprintf(out, " %d %d %d", r.From, r.To, set.Transitions[i])
+		}
+		fmt.Fprintln(out)
+	}
+}
